@@ -53,7 +53,7 @@ TYPED = [
 COLS = {"S": "S VARCHAR", "I": "I INT", "F": "F FLOAT", "D": "D NUMBER(20,5)", "B": "B BOOLEAN", "DT": "DT DATE",
         "TS": "TS TIMESTAMP_NTZ", "TM": "TM TIME"}
 STYLES = ["pyformat_seq", "pyformat_dict", "format", "qmark"]
-POSITIONS = ["values", "select_list", "where_eq", "where_ne", "in_list", "in_listvalue", "like", "update_set", "limit", "two_stmts", "two_strings", "two_strings"]
+POSITIONS = ["values", "select_list", "where_eq", "where_ne", "in_list", "in_listvalue", "like", "update_set", "limit", "two_stmts", "two_strings", "two_strings", "merge"]
 PAIRS = [("ends with backslash\\", "see $region"), ("\\", "$5"), ("a\\", "x $v1 y"), ("it's", "cost $price"), ("q'", "$v1"), ("\\'", "$$x$$"),
          ("100%", "%s"), ("%s", "100%"), ("a;b", "-- c"), ("/*", "*/"), ("'", "'"), ("$v1", "ends\\"), ("x\\", "it's $5"), ("?", "??")]
 # python values that compare equal (and hash alike) but are different data
@@ -262,6 +262,22 @@ def run_case(case: dict, env: core.Env) -> None:
                       f"INSERT INTO RT_TWIN (S, S2, N) VALUES ({qlit(v)}, {qlit(v2)}, 1)"))
         col = "S, S2"
         check = ("table2", [(v, v2, 1)])
+    elif pos == "merge":
+        # the value travels through MERGE (source row, SET, VALUES and a WHEN condition)
+        if t != "S" or style == "qmark":
+            t, v = "S", (v if isinstance(v, str) else v2)
+            vclass = _vclass(v)
+        if style == "qmark":
+            return  # MERGE with server-side bindings: not supported by the fake (parameter count error) - outside this comparison
+        for c_, name in ((cur, "RT"), (tcur, "RT_TWIN")):
+            c_.execute(f"CREATE OR REPLACE TABLE {name} (S VARCHAR, N INT)")
+            c_.execute(f"INSERT INTO {name} VALUES ('old', 1), ('keep', 3)")
+        m = ("MERGE INTO {tbl} t USING (SELECT {a} AS S, 1 AS N UNION ALL SELECT {b} AS S, 2 AS N) s ON t.N = s.N "
+             "WHEN MATCHED AND s.S = {c} THEN UPDATE SET S = s.S WHEN NOT MATCHED THEN INSERT (S, N) VALUES (s.S, s.N)")
+        stmts.append((m.format(tbl="RT", a=ph(style, 0), b=ph(style, 1), c=ph(style, 2)), bind(style, [v, v2, v]),
+                      m.format(tbl="RT_TWIN", a=qlit(v), b=qlit(v2), c=qlit(v))))
+        col = "S"
+        check = ("table", "S", [(v, 1), (v2, 2), ("keep", 3)])
     elif pos == "two_stmts":
         cur.execute("CREATE OR REPLACE TABLE RT (S VARCHAR, N INT)")
         tcur.execute("CREATE OR REPLACE TABLE RT_TWIN (S VARCHAR, N INT)")
